@@ -116,10 +116,18 @@ def stale_loop_variable_reads(ctx, prefixes):
             if not bs or x.id in params or not all(isinstance(b, _ast.For) for b in bs):
                 continue
             anc = [p for p in parents(x) if isinstance(p, (_ast.For, _ast.While))]
-            if not anc:
-                continue
             if any(isinstance(p, _ast.For) and x.id in {z.id for z in _ast.walk(p.target) if isinstance(z, _ast.Name)} for p in anc):
                 continue
+            if not anc:
+                # after the loop, outside any loop: fine for a counter (`if k == max_iteration`), but an ITEM of the iterated
+                # collection read there is just the last item - e.g. a per-item check that slipped out of its loop
+                b = bs[0]
+                it = b.iter
+                is_range = isinstance(it, _ast.Call) and isinstance(it.func, _ast.Name) and it.func.id == "range"
+                is_enum_counter = isinstance(it, _ast.Call) and isinstance(it.func, _ast.Name) and it.func.id == "enumerate" \
+                    and isinstance(b.target, _ast.Tuple) and isinstance(b.target.elts[0], _ast.Name) and b.target.elts[0].id == x.id
+                if is_range or is_enum_counter:
+                    continue
             yield f, x, bs[0]
 
 
